@@ -265,6 +265,27 @@ def long_ops(rng, tier):
     return ops
 
 
+def big_ops(rng, tier):
+    """values whose frames exceed 64 KiB through one writer, between small ones"""
+    ops = []
+    for k in range(6 if tier == "quick" else 40):
+        sizes = rng.choice([[70000, 5], [5, 66000, 5, 70000, 5], [65537], [100005, 3, 65536]])
+        vs = [("b", gen.rand_bytes(rng, n)) for n in sizes]
+        ml = 200000
+        total = sum(4 + len(F.payload(v)) for v in vs)
+        parts = F.rand_composition(rng, total, rng.choice([20000, 40000, 66000, 10 ** 6]))
+        evs = []
+        for part in parts:
+            while rng.random() < 0.4:
+                evs.append(rng.choice(["p", "p", "e", "i", "z"]))
+            evs.append(part)
+        evs += tail(len(vs))
+        pd = rng.choice([0.0, 0.5, 1.0])
+        acts = walk(vs, ml, evs, lambda: rng.random() < pd, implicit=lambda: rng.random() < 0.5, extra_sync=lambda: rng.random() < 0.2, limit=10 ** 6)
+        ops.append(f"awrite {ml} {F.vals_tok(vs)} {F.script_tok(evs)} {','.join(acts) or '-'} #k=sched #complete=1")
+    return ops
+
+
 def mk(name, ops, rule):
     if name != "replay":
         ops = F.ctor_expand(ops)      # every 4th scenario once more through with_buffer(..) with some buffer
@@ -280,6 +301,7 @@ def streams(rng, tier):
         mk("error-events", error_ops(rng, tier), "one Other / Interrupted / accept-0 event at every position, then sync; oracle: one error result, exact frames"),
         mk("rejected-values", reject_ops(rng, tier), "encode failures and over-long values between good ones, idle syncs; oracle: they add nothing"),
         mk("random-walks", random_ops(rng, tier), "seeded random disciplined walks judged by the oracle; undisciplined ones against the model"),
+        mk("big-frames", big_ops(rng, tier), "values of 65537..100005 bytes through one writer in 20 KB..1 MB pieces with Pendings, error events and drop-then-sync; oracle: exact frames, lengths"),
         mk("long-streams", long_ops(rng, tier), "31..300 values through one writer under chunking, Pendings, error events and drop-then-sync; oracle: exact frames, lengths"),
     ]
 
